@@ -276,7 +276,9 @@ func c10(r *hx.Run) {
 					trace = append(trace, fmt.Sprintf("advance %d", d))
 				case op < 9:
 					callsBefore := ms.NCalls()
-					cache.RemoveHTTPCache("c10", []byte(k.key))
+					if !purgeDirect(r, "c10", k.key, nil) {
+						return
+					}
 					for _, c := range ms.CallsSince(callsBefore) {
 						if c.Op == "delete" && c.Fault == "error" {
 							k.purgeBad = true
@@ -332,7 +334,7 @@ func c10(r *hx.Run) {
 			return w.Cl.Do(hx.Req{Addr: w.Addr, Host: "c10.example", URI: uri, Timeout: 8 * time.Second})
 		}
 		first, second := get(), get()
-		cache.RemoveHTTPCache("c10", []byte(key))
+		purgeDirect(r, "c10", key, nil)
 		third := get()
 		fmu.Lock()
 		storeDown = false
